@@ -304,13 +304,14 @@ func TestVarExpRandom(t *testing.T) { subVarRand.Check(t, 40000, 1000000) }
 type LoadCase struct {
 	B       []byte `json:"b"`
 	PathSep bool   `json:"pathsep,omitempty"`
+	Escape  bool   `json:"escape,omitempty"` // EscapePath()
 	VarExp  bool   `json:"varexp,omitempty"`
 }
 
 var docFragments = []string{
 	"a: 1\n", "a.b: [1, 2]\n", "a: {c: d}\n", "- 1\n", "- {a: b}\n", "a: ${b}\n", "b: ${a}\n", "0: x\n", "-1: x\n", "a.-1: x\n", "? [a]\n: b\n", "a: &x 1\n", "b: *x\n",
 	"a: !!binary aGk=\n", "{", "}", "[", "]", "\"a\":", "\"a.b\":", "1", "null", "\"${a}\"", ",", ":", " ", "\n", "  ", "a:", "-", "\"", "'", "#", "//", "/*", "*/", "'''", "1e999", "0x1F",
-	"{\"a\": {\"b\": [1, \"${a}\"]}, \"a.c\": null}", "99999999999999999999", "-0", "~", "<<: *x\n", "a: |\n  x\n", "\"0\": 1", "\"5000\": 1", "\"1.2\": {}", "\"a..b\": 1", "\".\": 1", "\"\": 1",
+	"{\"a\": {\"b\": [1, \"${a}\"]}, \"a.c\": null}", "99999999999999999999", "-0", "~", "<<: *x\n", "a: |\n  x\n", "\"0\": 1", "\"5000\": 1", "\"1.2\": {}", "\"a..b\": 1", "\".\": 1", "\"\": 1", "\"[a.b]\": 1", "\"[]\": 1", "\"[\": 1", "[a.b]: 1\n", "\"\": {\"\": 1}",
 }
 
 func genLoad(t *rapid.T) LoadCase {
@@ -323,7 +324,7 @@ func genLoad(t *rapid.T) LoadCase {
 		}
 		b = append(b, rapid.SampledFrom(docFragments).Draw(t, "frag")...)
 	}
-	return LoadCase{B: b, PathSep: rapid.Bool().Draw(t, "pathsep"), VarExp: rapid.Bool().Draw(t, "varexp")}
+	return LoadCase{B: b, PathSep: rapid.Bool().Draw(t, "pathsep"), VarExp: rapid.Bool().Draw(t, "varexp"), Escape: rapid.IntRange(0, 2).Draw(t, "escape") == 0}
 }
 
 func runLoad(c LoadCase, r *runlog.R) error {
@@ -333,6 +334,9 @@ func runLoad(c LoadCase, r *runlog.R) error {
 	}
 	if c.VarExp {
 		opts = append(opts, ucfg.VarExp)
+	}
+	if c.Escape {
+		opts = append(opts, ucfg.EscapePath())
 	}
 	accepted := 0
 	for _, load := range []func([]byte, ...ucfg.Option) (*ucfg.Config, error){yaml.NewConfig, json.NewConfig, hjson.NewConfig} {
@@ -353,7 +357,7 @@ func runLoad(c LoadCase, r *runlog.R) error {
 
 var subLoad = runlog.Register(&runlog.Sub[LoadCase]{
 	Name:    "loaders-random",
-	Rule:    "byte strings assembled from 50 YAML/JSON/HJSON fragments (anchors, merge keys, tags, numeric and negative keys, dotted keys, references, comments, unterminated tokens) and raw bytes, loaded by yaml/json/hjson.NewConfig with and without PathSep/VarExp and then read through every entry point; must return, leave no goroutine behind and build no list longer than MaxIdx+1. Non-trivial: some but not all loaders accept the document (malformed-but-plausible).",
+	Rule:    "byte strings assembled from 50 YAML/JSON/HJSON fragments (anchors, merge keys, tags, numeric and negative keys, dotted keys, references, comments, unterminated tokens) and raw bytes, loaded by yaml/json/hjson.NewConfig with and without PathSep/VarExp/EscapePath and then read through every entry point; must return, leave no goroutine behind and build no list longer than MaxIdx+1. Non-trivial: some but not all loaders accept the document (malformed-but-plausible).",
 	Gen:     genLoad,
 	Run:     runLoad,
 	Journal: true,
@@ -375,10 +379,11 @@ type PathCase struct {
 	NumKeys bool     `json:"numkeys,omitempty"`
 	MaxIdx  int64    `json:"maxidx,omitempty"` // 0: default (1024)
 	MaxIdx0 bool     `json:"maxidx0,omitempty"` // the option MaxIdx(0): index 0 is the only list index
+	Escape  bool     `json:"escape,omitempty"`  // the option EscapePath()
 	Ops     []PathOp `json:"ops"`
 }
 
-var nameSpellings = []string{"", "a", "b", "l", "p", "n", "a.b", "a.l", "a.l.1", "l.0.k", "l.1", "0", "1", "-1", "-0", "+1", "00", "0x10", "0X1", "0o7", "0b1", "1_0", "1024", "1025", "5000", "1000000", "9223372036854775807", "9223372036854775808", "-9223372036854775808", "18446744073709551616", "a.-1", "a.-1.b", "-1.a", "a..b", ".", "..", "a.", ".a", " 1", "1 ", "1.0", "1e1", "١", "a.0x1", "l.-2", "l.5000", "n.x", "p.x", "p.0"}
+var nameSpellings = []string{"", "a", "b", "l", "p", "n", "a.b", "a.l", "a.l.1", "l.0.k", "l.1", "0", "1", "-1", "-0", "+1", "00", "0x10", "0X1", "0o7", "0b1", "1_0", "1024", "1025", "5000", "1000000", "9223372036854775807", "9223372036854775808", "-9223372036854775808", "18446744073709551616", "a.-1", "a.-1.b", "-1.a", "a..b", ".", "..", "a.", ".a", " 1", "1 ", "1.0", "1e1", "١", "a.0x1", "l.-2", "l.5000", "n.x", "p.x", "p.0", "[a.b]", "[]", "[", "]", "[a].b", "a.[b]", "[a.l].1", "[[]]", "[\n]", "m", "m.1", "m.3"}
 
 var idxValues = []int{-1, -1, -1, 0, 0, 1, 2, 3, -2, -5, 1023, 1024, 1025, 5000, 100000, 1000000, -1 << 31, -1 << 63}
 
@@ -390,8 +395,19 @@ func genPath(t *rapid.T) PathCase {
 	if c.MaxIdx < 0 {
 		c.MaxIdx, c.MaxIdx0 = 0, true
 	}
+	c.Escape = rapid.IntRange(0, 3).Draw(t, "escape") == 0
 	n := rapid.IntRange(1, 8).Draw(t, "nops")
+	// half of the sequences stay with one list: removals, writes at and beyond its end and reads follow each
+	// other on the same setting (states that only a history of calls reaches)
+	focus := ""
+	if rapid.Bool().Draw(t, "focused") {
+		focus = rapid.SampledFrom([]string{"m", "l", "a.l", "m.1", "a"}).Draw(t, "focus")
+	}
 	for i := 0; i < n; i++ {
+		if focus != "" && rapid.IntRange(0, 4).Draw(t, "stay") > 0 {
+			c.Ops = append(c.Ops, PathOp{Kind: rapid.SampledFrom([]int{4, 4, 4, 0, 1, 2, 3, 12, 13, 7, 5, 10}).Draw(t, "fkind"), Name: focus, Idx: rapid.SampledFrom([]int{0, 0, 1, 2, 3, 4, 5, 6, -1}).Draw(t, "fidx")})
+			continue
+		}
 		c.Ops = append(c.Ops, PathOp{Kind: rapid.IntRange(0, nPathOps-1).Draw(t, "kind"), Name: rapid.SampledFrom(nameSpellings).Draw(t, "name"), Idx: rapid.SampledFrom(idxValues).Draw(t, "idx")})
 	}
 	return c
@@ -404,6 +420,9 @@ func pathOpts(c PathCase) ([]ucfg.Option, int) {
 	}
 	if c.NumKeys {
 		opts = append(opts, ucfg.EnableNumKeys(true))
+	}
+	if c.Escape {
+		opts = append(opts, ucfg.EscapePath())
 	}
 	limit := 1024
 	if c.MaxIdx != 0 || c.MaxIdx0 {
@@ -418,6 +437,7 @@ func runPath(c PathCase, r *runlog.R) error {
 	cfg := ucfg.MustNewFrom(map[string]interface{}{
 		"a": map[string]interface{}{"b": 1, "l": []interface{}{1, "x", nil}},
 		"l": []interface{}{map[string]interface{}{"k": true}, 2}, "p": "s", "n": nil,
+		"m": []interface{}{0, []interface{}{"p", "q", "r", "s"}, 2, 3, 4, 5},
 	})
 	hostile, errs := false, 0
 	for i, op := range c.Ops {
@@ -477,6 +497,20 @@ func runPath(c PathCase, r *runlog.R) error {
 			return fmt.Errorf("after op %d (kind %d, name %q, idx %d): a list grew to %d entries (longest before: %d) although MaxIdx is %d", i, op.Kind, op.Name, op.Idx, n, before, limit)
 		}
 	}
+	// whatever state the sequence left behind is read completely
+	var m map[string]interface{}
+	cfg.Unpack(&m, opts...)
+	cfg.FlattenedKeys(opts...)
+	ucfg.New().Merge(cfg, opts...)
+	ucfg.NewFrom(map[string]interface{}{"c": cfg}, opts...)
+	for _, name := range []string{"m", "l", "a"} {
+		cfg.CountField(name)
+		if ch, err := cfg.Child(name, -1, opts...); err == nil {
+			ch.FlattenedKeys(opts...)
+			cfg.Remove(name, 0, opts...)
+			ch.GetFields()
+		}
+	}
 	r.NonTrivialIf(hostile && errs > 0)
 	r.ClassIf(errs > 0, "some op returned an error")
 	return nil
@@ -486,7 +520,7 @@ func runPathQuiet(c PathCase) error { return runPath(c, &runlog.R{}) }
 
 var subPath = runlog.Register(&runlog.Sub[PathCase]{
 	Name:    "path-ops",
-	Rule:    "sequences of 1-8 calls of Set*/SetChild/Remove/typed getters/Child/Has/HasField/CountField/PathOf/Merge/NewFrom/Unpack/FlattenedKeys with names from 49 spellings (negative, signed, hex/octal/binary, huge, dotted with empty and negative segments, blanks, non-ASCII digits) and indices from {MinInt64, -2^31, -5, -2, -1, 0..3, 1023..1025, 5000, 1e5, 1e6}, with and without PathSep, EnableNumKeys and MaxIdx in {default, 0, 1, 7, 5000}; must return, and after every setter no list anywhere is longer than MaxIdx+1. Non-trivial: the sequence contains a hostile name or index and at least one call returned an error.",
+	Rule:    "sequences of 1-8 calls of Set*/SetChild/Remove/typed getters/Child/Has/HasField/CountField/PathOf/Merge/NewFrom/Unpack/FlattenedKeys with names from 61 spellings (incl. bracketed ones) (negative, signed, hex/octal/binary, huge, dotted with empty and negative segments, blanks, non-ASCII digits) and indices from {MinInt64, -2^31, -5, -2, -1, 0..3, 1023..1025, 5000, 1e5, 1e6}, with and without PathSep, EnableNumKeys, EscapePath and MaxIdx in {default, 0, 1, 7, 5000}; half of the sequences stay with one list (removals, writes at and beyond its end, reads), and the state a sequence leaves behind is read completely (Unpack, FlattenedKeys, use as merge source, children); must return, and after every setter no list anywhere is longer than MaxIdx+1. Non-trivial: the sequence contains a hostile name or index and at least one call returned an error.",
 	Gen:     genPath,
 	Run:     runPath,
 	Journal: true,
